@@ -137,3 +137,36 @@ def self_test(ck: Check) -> None:
     if len(ck.failures) == probe_failures and len(camp.samples) < 1:
         camp.samples.append({"doc": MINIMAL_DOCS[0][1], "kinds": e2e.MODEL_KINDS})
     camp.wall_s = time.time() - t0
+
+
+C10_TEXTS = ["import os", "two words", "x = 1\ny = 2", "a'b", 'say """hi"""', "back\\slash\\", "#"]
+
+
+def search_c10(ck: Check) -> None:
+    """hook for C10: when a template theorem broke, plant texts that are valid or invalid *code* into every description
+    slot and non-identifier keys into member names, for all 5 model kinds with descriptions switched on, and evaluate
+    C10's own oracle (`c10.oracle_case`: parses, same AST shape as with neutral text, planted text among the string
+    constants)."""
+    from . import c10
+
+    try:
+        reqs = [f"tpl.lexrefute {hx(n)}" for n in sorted(_template_names())]
+        ck.notes["template_lex_refuter"] = {n: r for n, r in zip(sorted(_template_names()), ck.driver.run(reqs)) if r != "none"} or "none refuted"
+    except Exception as e:  # noqa: BLE001
+        ck.notes["template_lex_refuter"] = f"unavailable: {e}"[:200]
+    camp = ck.campaign("template search: code-like texts in every description slot and key, all model kinds")
+    opts = {"use_schema_description": True, "use_field_description": True}
+    for slot in ("class_description", "field_description", "member_name"):
+        for model in e2e.MODEL_KINDS:
+            for s in C10_TEXTS:
+                if slot == "member_name" and ("\n" in s or s == "#"):
+                    continue
+                c10.oracle_case(ck, camp, slot, s, model, dict(opts), None)
+                if ck.failures:
+                    return
+
+
+def _template_names() -> list[str]:
+    from ..translate import template_ast
+
+    return [str(p.relative_to(template_ast.TEMPLATE_DIR)) for p in template_ast.TEMPLATE_DIR.rglob("*.jinja2")]
